@@ -321,6 +321,64 @@ def check_hints(ctx, prog):
     ctx.require(found >= 3, "expected >= 3 hash-size hints, found %d" % found)
 
 
+def check_ptrarray(ctx, prog):
+    """the object arrays (NC_dimarray / NC_attrarray / NC_vararray .value) are arrays of pointers released by destructors
+    that walk [0, ndefined) and skip NULL cells.  A function that installs such an array must either get it zeroed
+    (calloc, or malloc + memset 0) or keep `ndefined` equal to the number of cells it has stored (set to 0, then
+    incremented): otherwise an error half-way - a malformed file - hands uninitialised pointers to the destructor."""
+    ZEROING = {"NCI_Calloc_fn", "calloc"}
+    RAW = {"NCI_Malloc_fn", "malloc", "NCI_Realloc_fn", "realloc"}
+    n = 0
+    for fn in prog.all_functions():
+        for b, i, e in fn.elements():
+            for x in walk(e):
+                if x.get("k") != "asg" or x.get("op") != "=":
+                    continue
+                l = strip(x["a"])
+                if not (l.get("k") == "mem" and l.get("f") == "value" and str(l.get("rec", "")).endswith("array")):
+                    continue
+                r = strip(x["b"])
+                while isinstance(r, dict) and r.get("k") == "cast":
+                    r = strip(r["e"])
+                if not (isinstance(r, dict) and r.get("k") == "call" and r.get("fn") in ZEROING | RAW):
+                    continue
+                n += 1
+                ctx.functions_analysed.add((fn.unit.name, fn.name))
+                base = canon(l["b"])
+                inst = "%s:%s.value" % (fn.name, base)
+                if r["fn"] in ZEROING:
+                    ctx.ok("R9.ptrarray", inst, "zero-initialised (%s)" % r["fn"], nontrivial=False)
+                    continue
+                zeroed = False
+                for b2, i2, c2 in patterns.call_sites(fn, lambda nm: nm == "memset"):
+                    a = c2.get("args", [])
+                    if len(a) == 3 and canon(a[0]) == canon(x["a"]) and const_value(a[1]) == 0 and cfg.pos_dominates(fn, (b.id, i), (b2.id, i2)):
+                        zeroed = True
+                counted = True
+                why = None
+                for b2, i2, e2 in fn.elements():
+                    for y in walk(e2):
+                        tgt = None
+                        if y.get("k") == "asg":
+                            tgt = strip(y["a"])
+                        if tgt is not None and tgt.get("k") == "mem" and tgt.get("f") == "ndefined" and canon(tgt["b"]) == base:
+                            if y.get("op") == "=" and const_value(y["b"]) == 0:
+                                continue
+                            if y.get("op") == "+=" and const_value(y["b"]) == 1:
+                                continue
+                            counted = False
+                            why = show(y)[:50]
+                if zeroed:
+                    ctx.ok("R9.ptrarray", inst, "malloc followed by memset 0")
+                elif counted:
+                    ctx.ok("R9.ptrarray", inst, "not zeroed, but %s.ndefined only counts stored cells (0, then ++)" % base)
+                else:
+                    ctx.fail("R9.ptrarray", fn.name, "%s.value" % base, "the pointer array is allocated with %s (not zeroed) while `%s` "
+                             "announces cells that are not stored yet: if reading element k fails, the destructor walks all announced "
+                             "cells and releases uninitialised pointers" % (r["fn"].replace("_fn", ""), why), fn=fn, line=x.get("l", 0), inst=inst)
+    ctx.require(n >= 8, "R9.ptrarray: only %d allocations of object arrays found" % n)
+
+
 def check_gotoinit(ctx, prog):
     """a scalar local must not be read on a path that reaches the read through a `goto` and has not passed an
     initialisation or assignment of it (a jump over an initialising declaration leaves the variable indeterminate; a jump
@@ -421,6 +479,8 @@ def run(ctx):
     check_hints(ctx, prog)
     r5.run_r5(ctx, prog)
     ctx.min_instances("R5.queue", 30)
+    ctx.rule("R9.ptrarray", "object pointer arrays are zero-initialised, or ndefined counts only the cells stored")
+    check_ptrarray(ctx, ctx.program(groups=["lib"]))
     ctx.rule("R9.gotoinit", "no scalar local is read across a goto taken before its initialisation")
     check_gotoinit(ctx, ctx.program(groups=["lib"]))
     from rules import r10type
